@@ -171,6 +171,33 @@ def csibling(chain_id, level, tag):
 
 
 @m.memento_function(version="c1")
+def oparent(chain_id):
+    """A partition published under a key override (its entries are stored under names, not under content hashes)."""
+    from twosigma.memento.result import KeyOverrideResult
+
+    REC.hit("oparent", chain_id)
+    return KeyOverrideResult(_build_level(T.get(chain_id + "/oparent")), "ovr/part-" + chain_id)
+
+
+@m.memento_function(cluster="c", version="c1")
+def cother(chain_id):
+    """Another partition, of cluster c, published under the very same key override."""
+    from twosigma.memento.result import KeyOverrideResult
+
+    REC.hit("cother", chain_id)
+    return KeyOverrideResult(_build_level(T.get(chain_id + "/cother")), "ovr/part-" + chain_id)
+
+
+@m.memento_function(cluster="c", version="c1")
+def ochild(chain_id):
+    """A child, stored in cluster c, of the partition that oparent (default cluster) publishes under a key override."""
+    REC.hit("ochild", chain_id)
+    part = _build_level(T.get(chain_id + "/ochild"))
+    part._merge_parent = oparent(chain_id)
+    return part
+
+
+@m.memento_function(version="c1")
 def unstorable(chain_id):
     """A partition one of whose values is a partition with a merge parent that was never stored: storing it fails
     part-way (the caller still gets the partition)."""
